@@ -300,12 +300,21 @@ pub fn pattern_node<T: Clone>(p: &pattern::MatchingPattern<T>) -> Node {
         elements
           .iter()
           .map(|e| {
+            // `{ a }` and `{ a as a }` are the same pattern: both count as shorthand; a nested pattern
+            // that is written separately is part of the tree
+            let same_name_alias = matches!(e.pattern.as_ref(), pattern::MatchingPattern::Id(id, _) if id.name == e.field_name.name);
             let mut n = Node::new(
-              format!("ObjectPatternElement(shorthand={})", e.shorthand),
+              format!("ObjectPatternElement(shorthand={})", e.shorthand || same_name_alias),
               e.loc,
             );
             n.children.push(Node::id("FieldName", &e.field_name));
-            if !e.shorthand {
+            // (in `{ a }` the nested pattern IS the field name token: not a second part)
+            if same_name_alias {
+              // position-only part: location-free dumps skip it, so `{ a as a }` dumps like `{ a }`
+              if e.pattern.loc() != &e.field_name.loc {
+                n.children.push(Node::new("SameNameAlias", *e.pattern.loc()));
+              }
+            } else {
               n.children.push(pattern_node(&e.pattern));
             }
             n
@@ -580,6 +589,9 @@ pub fn dump_module<T: Clone>(heap: &Heap, m: &Module<T>) -> String {
 }
 
 pub fn dump_node(heap: &Heap, n: &Node, depth: usize, out: &mut String) {
+  if n.label == "SameNameAlias" {
+    return;
+  }
   for _ in 0..depth {
     out.push(' ');
   }
